@@ -811,6 +811,8 @@ class Spec(object):
             if r is None:
                 if attr == "__name__":
                     return v.name
+                if attr == "mro":
+                    return v.mro
                 return Top("noattr %s.%s" % (v.qualname, attr))
             return r
         if isinstance(v, FuncRef):
@@ -1151,6 +1153,8 @@ class Spec(object):
         if any(isinstance(a, (FuncRef, BoundMethod, ClassRef, Instance, ModuleNS)) for a in list(args) + list(kw.values())):
             if f in (isinstance, hasattr, getattr, callable, id, type, repr, str):
                 pass
+            elif isinstance(self_obj, dict) and name in ("get", "__contains__", "__getitem__"):
+                pass  # lookups keyed by a repo class / function (dispatch tables)
             else:
                 self.effect("call", name, tuple(args), tuple(sorted(kw.items())), node=node)
                 return Top("builtin on repo object")
